@@ -168,7 +168,8 @@ CHECKS = {
             "subsets of up to four eligible files in the enumerated plans, random beyond), a pre-existing regular file of that name (garbage / "
             "empty / truncated archive / valid archive of other or the same entries), injected write failure for a subset. A log may disappear "
             "only if an archive decoding to exactly its entries exists, a pass with a failing eligible log deletes nothing, logs at or above the "
-            "cut-off stay, a healthy pass deletes every eligible log, recover_all returns the archived logs in log order.",
+            "cut-off stay, a healthy pass deletes every eligible log, recover_all returns the archived logs in log order. Fault-free engine "
+            "histories in conservative mode (STORE / FLUSH / auto-flush / restart) are checked with the same oracle on the real flush-worker path.",
             "the sandbox runs as root: permission bits cannot deny, EISDIR / ENOTDIR / pre-existing files / the wa.write hook stand in; the "
             "enumeration is complete only over fault subsets of <= 4 eligible logs, the rest is sampled",
             "DESIGN.md §4 C19"),
